@@ -334,7 +334,7 @@ ATTR_NAMES = ["allocatable", "assumedtype", "capsule", "cdesc", "charlen", "defa
               "free_pattern", "hidden", "implied", "intent", "len", "len_trim", "name", "owner", "pure", "rank", "size",
               "value", "readonly", "context", "bogus", "Intent"]
 VALUE_FORMS = ["", "(in)", "(3)", "(n)", "(size(arr))", "(..)", "(caller)", "(allocatable)", "=3", "=x", "()", "(-1)",
-               "(n,)", "(1+)"]
+               "(n,)", "(1+)", "(size(arr+1))", "(n m)", "(size(arr)*)", "(len(n)+1)"]
 SITES = {
     "function": "int *f(int n, double *arr) %s",
     "argument": "void f(int n, double *arr %s)",
@@ -343,6 +343,9 @@ SITES = {
     "string-result": "const std::string &f() %s",
     "variable": "int var %s",
     "struct-member": "struct S { int n; double *arr %s; };",
+    "funcptr-parameter": "void f(int (*fn)(int n %s, double *arr))",
+    "funcptr-argument": "void f(int (*fn)(int n) %s, double *arr)",
+    "class-member": "@class int *arr %s",
 }
 # Misuse the code itself documents as illegal (each has its own RuntimeError in generate.py)
 ILLEGAL = [
@@ -398,6 +401,11 @@ for _t in ("int", "double", "bool", "long", "size_t"):
     for _i in ("out", "inout", "OUT", "INOUT"):
         ILLEGAL.append("void f(%s n +intent(%s))" % (_t, _i))
         ILLEGAL.append("void f(int *a +rank(1), %s n +intent(%s))" % (_t, _i))
+# typedefs of pointers and references are refused ("Pointers not supported in typedef")
+for _d in ("int *P", "int &R", "const double &R", "int **P", "int *&P", "double * const P"):
+    ILLEGAL.append("typedef " + _d)
+# text left over after the expression of an attribute value
+ILLEGAL += ["void f(int *a +dimension(n m), int n, int m)", "void f(int *a +rank(1), int n +implied(size(a) 2))", "void f(int *a +dimension(n)) )", "int *f(int n) +dimension(n n)"]
 ILLEGAL = list(dict.fromkeys(ILLEGAL))
 
 
@@ -406,7 +414,11 @@ def attr_case(decl):
     from shroud import ast, generate, main, typemap
 
     typemap.initialize()
-    d = dict(library="lib", cxx_header="lib.hpp", declarations=[dict(decl=decl)],
+    decls = [dict(decl=decl)]
+    if decl.startswith("@class "):
+        # the declaration is a data member of a class
+        decls = [dict(decl="class Cm", declarations=[dict(decl="Cm()"), dict(decl=decl[len("@class "):])])]
+    d = dict(library="lib", cxx_header="lib.hpp", declarations=decls,
              options=dict(wrap_python=True, wrap_lua=True))
     lib = ast.create_library_from_dictionary(d)
     cfg = main.Config()
@@ -648,7 +660,7 @@ def run(ctx):
     decls = []
     names = ATTR_NAMES if not quick else ATTR_NAMES
     forms = VALUE_FORMS if not quick else VALUE_FORMS[:9]
-    sites = SITES if not quick else {k: SITES[k] for k in ("function", "argument", "char-argument", "variable")}
+    sites = SITES if not quick else {k: SITES[k] for k in ("function", "argument", "char-argument", "variable", "funcptr-parameter", "class-member")}
     for site, tmpl in sites.items():
         for nm in names:
             for vf in forms:
